@@ -365,6 +365,10 @@ func (r *resolver) applyDeviation(y *Module, d *Deviation) error {
 			}
 			hasListDets.setMinElements(*(d.Replace).minElementsPtr)
 		}
+		if d.Replace.dtype != nil {
+			// compiled later with the rest of the leaf
+			hasType.setType(d.Replace.dtype)
+		}
 		if d.Replace.units != "" {
 			if hasType.Units() == "" {
 				return fmt.Errorf("units not set on %s", d.Ident())
@@ -452,7 +456,7 @@ func (r *resolver) checkDeviationTarget(d *Deviation, target Definition, hasDets
 	if p := d.Replace; p != nil {
 		needsDets = needsDets || p.configPtr != nil || p.mandatoryPtr != nil
 		needsListDets = needsListDets || p.maxElementsPtr != nil || p.minElementsPtr != nil
-		needsType = needsType || p.units != "" || p.HasDefault()
+		needsType = needsType || p.units != "" || p.HasDefault() || p.dtype != nil
 	}
 	if x := d.Delete; x != nil {
 		needsType = needsType || x.units != "" || x.HasDefault()
@@ -468,7 +472,7 @@ func (r *resolver) checkDeviationTarget(d *Deviation, target Definition, hasDets
 	case needsListDets && !hasListDets:
 		return fmt.Errorf("%T does not support min-elements or max-elements in deviation %s", target, d.Ident())
 	case needsType && (!hasType || isAny):
-		return fmt.Errorf("%T does not support units or default in deviation %s", target, d.Ident())
+		return fmt.Errorf("%T does not support type, units or default in deviation %s", target, d.Ident())
 	case needsMusts && !allowsMusts:
 		return fmt.Errorf("%T does not support must in deviation %s", target, d.Ident())
 	case needsList && !isList:
